@@ -15,6 +15,7 @@ var harnessIntrinsics = map[string]bool{
 	"vAssume": true, "vAssert": true, "vCheck": true, "vCover": true, "vKnown": true, "vParam": true, "vWant": true,
 	"vHash": true, "vUF": true, "vBytesOf": true, "vU64Of": true, "vMaybe": true, "vMaybeHV": true,
 	"vTime": true, "vZeroTime": true, "vNs": true, "vSymLen": true, "vNote": true, "vCut": true,
+	"vObserve": true, "vSleep": true, "vWall": true,
 	"vIsSymbolic": true, "vSubFail": true, "vMaybeRec": true, "vMaybeBlock": true, "vMaybePre": true, "vTimeZ": true,
 }
 
@@ -86,7 +87,7 @@ func (x *Exec) intrinsic(st *State, fn *ssa.Function, args []Value, call *ssa.Ca
 		panic(execPanic{"zap Logger.Panic"})
 	}
 	if strings.HasPrefix(full, "time.") || strings.HasPrefix(full, "(time.") || strings.HasPrefix(full, "(*time.") {
-		if r, ok := x.timerIntrinsic(st, full, args); ok {
+		if r, ok := x.timerIntrinsic(st, full, args, call); ok {
 			return r, true
 		}
 		panic(internalErr{"unmodelled time function " + full})
@@ -118,6 +119,11 @@ func (x *Exec) wallClock(st *State) TimeV {
 	t := x.newInput(st, "wallclock", 64)
 	c := x.mkCmp("bvult", t, x.mkConst(64, uint64(1)<<62))
 	st.pc = append(st.pc, c)
+	// successive readings never go back (kept in a reserved heap cell so that it merges like data)
+	if last, ok := st.heap[wallCell].(*Term); ok {
+		st.pc = append(st.pc, x.mkCmp("bvule", last, t))
+	}
+	st.heap[wallCell] = t
 	return TimeV{t, x.mkBool(false)}
 }
 
@@ -314,6 +320,43 @@ func (x *Exec) harnessIntrinsic(st *State, name string, args []Value) Value {
 		return x.mkIte(t.zero, x.mkConst(64, ^uint64(0)), t.ns)
 	case "vSymLen":
 		return symLenSlice{n: args[0].(*Term)}
+	case "vWall":
+		return x.wallClock(st).ns
+	case "vSleep":
+		// at least d nanoseconds pass: the next reading of the clock is >= last + d
+		d := args[0].(*Term)
+		last, ok := st.heap[wallCell].(*Term)
+		if !ok {
+			last = x.wallClock(st).ns
+		}
+		st.heap[wallCell] = x.mkBin("bvadd", last, d)
+		return nil
+	case "vObserve":
+		// the instant at which a receive from the channel completes if the program waits for it
+		// from now on, whether it ever completes, and the value received
+		p := args[0].(PtrV)
+		never := TupleV{x.mkConst(64, 0), x.mkBool(false), x.mkConst(64, 0)}
+		if p.obj < 0 {
+			return never
+		}
+		cd := st.heap[p.obj].(ChanData)
+		// "now" is the latest clock reading already taken (the harness reads the clock just before)
+		now, okw := st.heap[wallCell].(*Term)
+		if !okw {
+			now = x.wallClock(st).ns
+		}
+		if cd.timer {
+			if cd.stopped {
+				return never
+			}
+			at := x.mkIte(x.mkCmp("bvugt", cd.deadline, now), cd.deadline, now)
+			return TupleV{at, x.mkBool(true), cd.deadline}
+		}
+		if len(cd.q) == 0 {
+			return never
+		}
+		v := cd.q[0].(TimeV)
+		return TupleV{now, x.mkBool(true), v.ns}
 	}
 	panic("harness intrinsic " + name)
 }
@@ -331,7 +374,8 @@ func (x *Exec) chanSend(st *State, i *ssa.Send) {
 		panic(execPanic{"send on full channel (blocks forever: single goroutine)"})
 	}
 	q := append(append([]Value(nil), cd.q...), x.val(st, i.X))
-	st.heap[p.obj] = ChanData{cd.capacity, q}
+	cd.q = q
+	st.heap[p.obj] = cd
 }
 
 func (x *Exec) chanRecv(st *State, p PtrV, commaOk bool) Value {
@@ -344,7 +388,8 @@ func (x *Exec) chanRecv(st *State, p PtrV, commaOk bool) Value {
 		panic(execPanic{"receive from empty channel (blocks forever: single goroutine)"})
 	}
 	v := cd.q[0]
-	st.heap[p.obj] = ChanData{cd.capacity, append([]Value(nil), cd.q[1:]...)}
+	cd.q = append([]Value(nil), cd.q[1:]...)
+	st.heap[p.obj] = cd
 	if commaOk {
 		return TupleV{v, x.mkBool(true)}
 	}
@@ -362,13 +407,39 @@ func (x *Exec) selectOp(st *State, i *ssa.Select) Value {
 		cd := st.heap[p.obj].(ChanData)
 		if len(cd.q) > 0 {
 			v := cd.q[0]
-			st.heap[p.obj] = ChanData{cd.capacity, append([]Value(nil), cd.q[1:]...)}
+			cd.q = append([]Value(nil), cd.q[1:]...)
+			st.heap[p.obj] = cd
 			return TupleV{x.mkConst(64, 0), x.mkBool(true), v}
 		}
 	}
 	return TupleV{x.mkConst(64, ^uint64(0)), x.mkBool(false), x.zeroValue(elemT)}
 }
 
-func (x *Exec) timerIntrinsic(st *State, full string, args []Value) (Value, bool) {
+const wallCell = -100
+
+func (x *Exec) timerIntrinsic(st *State, full string, args []Value, call *ssa.Call) (Value, bool) {
+	switch full {
+	case "time.NewTimer":
+		now := x.wallClock(st)
+		d := args[0].(*Term)
+		// a non-positive duration fires at once
+		dl := x.mkIte(x.mkCmp("bvsgt", d, x.mkConst(64, 0)), x.mkBin("bvadd", now.ns, d), now.ns)
+		ch := x.alloc(st, ChanData{capacity: 1, timer: true, deadline: dl})
+		tt := call.Type().(*types.Pointer).Elem()
+		sv := x.zeroValue(tt).(StructV)
+		f := append([]Value(nil), sv.f...)
+		f[0] = PtrV{obj: ch, nonnil: x.mkBool(true)}
+		obj := x.alloc(st, StructV{f})
+		return PtrV{obj: obj, nonnil: x.mkBool(true)}, true
+	case "(*time.Timer).Stop":
+		p := x.resolvePtr(st, args[0].(PtrV), "Stop on nil *time.Timer")
+		sv := getPath(st.heap[p.obj], p.path).(StructV)
+		cp := sv.f[0].(PtrV)
+		cd := st.heap[cp.obj].(ChanData)
+		cd.stopped = true
+		cd.q = nil
+		st.heap[cp.obj] = cd
+		return x.newInput(st, "timer.stop.result", 0), true
+	}
 	return nil, false
 }
